@@ -5,6 +5,7 @@ from fractions import Fraction
 from vlib.obs import S, Err, guarded, gz, gzlist, gstr, glist, gopt, E_OVERFLOW
 
 PROP = "C20"
+ANCHORS = [('canopen.variable', 'Variable.phys'), ('canopen.variable', 'Variable.desc'), ('canopen.variable', 'Variable.bits'), ('canopen.variable', 'Variable.raw'), ('canopen.variable', 'Bits'), ('canopen.objectdictionary', 'ODVariable.encode_phys'), ('canopen.objectdictionary', 'ODVariable.decode_phys'), ('canopen.objectdictionary', 'ODVariable.encode_desc'), ('canopen.objectdictionary', 'ODVariable.decode_desc'), ('canopen.objectdictionary', 'ODVariable.encode_bits'), ('canopen.objectdictionary', 'ODVariable.decode_bits'), ('canopen.objectdictionary', 'ODVariable.add_value_description'), ('canopen.objectdictionary', 'ODVariable.add_bit_definition')]
 MODEL_VO = ["theories/Model/Codec.vo", "theories/Model/Views.vo"]
 COQ_IMPORTS = "From CV Require Import Model.Codec Model.Views."
 COQ_RUN = "run_views"
